@@ -227,6 +227,17 @@ private:
   SQUIDS_THREAD_LOCAL //one cache per thread if supported
   #endif
   detail::cache<mem_cache_entry,32> storage_cache[SQUIDS_MAX_HILBERT_DIM+1];
+  #ifdef SQUIDS_THREAD_LOCAL
+  ///Gives the blocks held in a thread's cache back when that thread ends.
+  ///It is created after the thread's cache, on the first allocation or
+  ///deallocation performed by the thread, and therefore destroyed after every
+  ///thread-local SU_vector but before the cache itself.
+  struct cache_drainer{
+    ~cache_drainer(){ SU_vector::clear_mem_cache(); }
+    void touch(){}
+  };
+  static SQUIDS_THREAD_LOCAL cache_drainer storage_cache_drainer;
+  #endif
 #endif
   
   ///A helper function which tries to put a memory block into the cache rather
@@ -236,6 +247,9 @@ private:
     bool cached=false;
     if(((intptr_t)(components+dim%2))%32 == 0) //only try to save aligned storage
       cached=storage_cache[dim].insert(mem_cache_entry{components,ptr_offset});
+  #ifdef SQUIDS_THREAD_LOCAL
+    storage_cache_drainer.touch();
+  #endif
     SQUIDS_VERIF_EVENT(cached?"heap.cached":"heap.deleted",components-ptr_offset,components,dim,ptr_offset);
     if(!cached)
 #endif
@@ -252,6 +266,9 @@ private:
                             double*& components, unsigned char& ptr_offset){
 #if SQUIDS_USE_STORAGE_CACHE
     mem_cache_entry cache_result=storage_cache[dim].get();
+  #ifdef SQUIDS_THREAD_LOCAL
+    storage_cache_drainer.touch();
+  #endif
     if(cache_result.storage){
       components=cache_result.storage;
       ptr_offset=cache_result.offset;
